@@ -84,6 +84,29 @@ def literal_family(rnd, n):
     return specs[:max(n, len(REGEX_TEXTS) * 2 + len(singles_src))]
 
 
+def sliced_family(rnd, n):
+    """generated protocol specs (the family of C19), whole and sliced to each party: what is printed for a slice must read
+    back as that slice"""
+    from harness.checks import c19
+    out = []
+    # every repetition operator over a group of alternatives that slicing reduces to a single one (a sequence / one message)
+    M = c19.msg
+    for lo, hi in [(0, gen.INF), (1, gen.INF), (0, 1), (2, 2), (1, 3), (2, gen.INF)]:
+        for body in (gen.alt(gen.cat(M("A", "B", "m1"), M("A", "B", "m2")), M("B", "A", "m3")),
+                     gen.alt(M("B", "A", "m3"), gen.cat(M("A", "B", "m1"), M("A", "B", "m2"))),
+                     gen.alt(gen.cat(M("A", "B", "m1"), M("A", "B", "m2")), gen.cat(M("B", "A", "m3"), M("B", "A", "m4")))):
+            g = c19.assign_ids({"start": "<start>", "types": ["m0", "m1", "m2", "m3", "m4", "m9"], "rules": {
+                "<start>": gen.cat(M("A", "B", "m0"), M("B", "A", "m0"), gen.rep(body, lo, hi), M("A", "B", "m9"), M("B", "A", "m9"))}})
+            for keep in (["A"], ["B"]):
+                out.append(("group of alternatives under a repetition, sliced to %s" % keep, c19.render(g) + c19.PARTIES, c19.PARTIES, keep))
+    for k in range(n):
+        g = c19.rand_protocol(rnd, three_parties=(k % 3 == 2))
+        text = c19.render(g) + c19.PARTIES
+        keep = [None, ["A"], ["B"], ["A", "B"]][k % 4]
+        out.append(("protocol%s" % (" sliced to %s" % keep if keep else ""), text, c19.PARTIES, keep))
+    return out
+
+
 ANNOTATED = [
     '<start> ::= <A:B:a> <B:A:b>\n' + HEAD,
     '<start> ::= (<A:a> <B:A:b>)* <A:B:a>?\n' + HEAD,
@@ -129,16 +152,27 @@ def _roundtrip_texts(texts):
     from harness.ir import grammar_ir, uniform
     quiet()
     out = []
-    for label, text, pre in texts:
+    for item in texts:
+        label, text, pre = item[:3]
+        parties = item[3] if len(item) > 3 else None
         rec = {"label": label, "src": text}
         try:
-            f = make(text)
+            if parties:
+                # the spec sliced to a set of parties (what `fandango convert --parties` prints)
+                from fandango.language.parse.parse import parse as parse_spec
+                grammar, _cons = parse_spec(text, use_stdlib=False, use_cache=False, parties=list(parties))
+            else:
+                grammar = make(text).grammar
         except Exception as e:  # noqa
             rec["read_error"] = "%s: %s" % (type(e).__name__, str(e)[:80])
             out.append(rec)
             continue
-        g1 = grammar_ir(f.grammar)
-        printed = repr(f.grammar)
+        g1 = grammar_ir(grammar)
+        if parties and "<start>" not in g1["rules"]:
+            rec["read_error"] = "the slice deletes the start symbol: nothing to print"
+            out.append(rec)
+            continue
+        printed = repr(grammar)
         rec["printed"] = printed
         try:
             f2 = make(pre + printed + "\n")
@@ -199,6 +233,13 @@ def run(tier, seed):
     deep = []
     for _ in range(150 if tier == "quick" else 3000):
         deep.append(gen.rand_node(rnd, 3, ["<a>", "<b>"], "text", regex_ok=False))
+    # bounds around the process-wide cap on open-ended repetitions (an open bound is internally capped there, which must
+    # not show in the printed text): {n}, {n,}, {n,m}, {,m} for n, m next to the cap in force
+    import fandango.language.grammar.nodes as fnodes
+    cap = getattr(fnodes, "MAX_REPETITIONS", 20)
+    for x in (gen.nt("<a>"), gen.cat(gen.nt("<a>"), gen.nt("<b>"))):
+        for n in (cap - 1, cap, cap + 1):
+            deep += [gen.rep(x, n, gen.INF), gen.rep(x, n, n), gen.rep(x, 0, n), gen.rep(x, 1, n), gen.rep(x, n, n + 1), gen.rep(x, n - 1, n)]
     if tier == "quick":
         bodies = [b for b in bodies if b["k"] == "rep" or rnd.random() < 0.35]
     allb = bodies + deep
@@ -227,6 +268,7 @@ def run(tier, seed):
         texts = [("literal %s" % lit, "<start> ::= %s <a>\n" % lit + HEAD, "") for lit in LITERALS]
         texts += literal_family(rnd, 160 if tier == "quick" else 4000)
         texts += [("party annotations", t, "") for t in ANNOTATED]
+        texts += sliced_family(rnd, 60 if tier == "quick" else 2000)
         texts += [("generator", t, t.split("<start>")[0]) for t in GENERATORS]
         read_errors = []
         ntexts = len(texts)
